@@ -36,6 +36,14 @@ Expected(e) ==
             LET node == NodeOf(FromHex(e.xkey))
                 d == Derive(node, [j \in 1..Len(e.path) |-> N(e.path[j])])
             IN Res(IF d.ok THEN [d EXCEPT !.version = Slip132(e.kind, node.version \in TestVersions, IsPrv(node))] ELSE d)
+      \* BIP44: a key partway down a five-level path stands for the rest of it only when it sits on it -- its depth within the path and, below the master
+      \* key, its own index the path's index at that depth; what is answered is then the key at the end of the path
+      [] e.op = "bip44" ->
+            LET node == NodeOf(FromHex(e.xkey))
+                path == [j \in 1..Len(e.path) |-> N(e.path[j])]
+                onpath == node.depth <= Len(path) /\ (node.depth > 0 => node.index = Ser32(path[node.depth]))
+                d == Derive(node, SubSeq(path, node.depth + 1, Len(path)))
+            IN IF ~onpath \/ ~d.ok THEN "refused" ELSE ToHex(d.key)
       [] e.op = "neuter" -> Res(Neuter(NodeOf(FromHex(e.xkey)), FromHex(e.pubversion)))
       [] e.op = "fingerprint" -> ToHex(Fingerprint(NodeOf(FromHex(e.xkey))))
       \* the tweaks a public derivation adds step by step (BIP328 / BIP373 apply them to an aggregate key): IL of every unhardened step, refused at a hardened one
